@@ -15,7 +15,7 @@ MOD = "mc.props.c04"
 FIELD_SETS = [
     ["id"], ["name", "id"], ["id", "name", "kind"], ["kind", "amount", "day"], ["code", "tag", "const", "note"],
     ["id", "amount", "day", "code", "num"], ["num", "note"], ["const", "id", "kind", "tag", "name"], ["day", "num", "name"],
-    ["amount", "name"], ["tag", "code"], ["note", "kind", "id"], ["stamp", "id"], ["kind", "note"], ["pct", "name"],
+    ["amount", "name"], ["tag", "code"], ["note", "kind", "id"], ["stamp", "id"], ["kind", "note"], ["pct", "name"], ["kt1", "kt2"],
 ]
 
 
@@ -32,6 +32,8 @@ def configs(tier):
                     checks.append(["uniq", "IsUnique", "id"])
                 if "kind" in fields:
                     checks.append(["dc", "DistinctCount", "kind < 3"])
+                if "kt1" in fields:
+                    checks.append(["pair", "IsUnique", "kt1, kt2"])  # keys holding tabs: distinct pairs whose joined texts are equal
                 if "amount" in fields and "id" not in fields:
                     checks.append(["uniq amount", "IsUnique", "amount"])  # keys are the cell texts: 1.5 and 1.50 differ
                 config = {"preset": preset, "header": header, "fields": fields, "checks": checks}
@@ -68,6 +70,18 @@ def judge(case, part):
         readermachine.run_reader(shared, None, reader=first)
         later = readermachine.run_reader(shared, None, reader=second)
         readermachine.compare_yield(prediction, later, basename, part, tag.replace("%s", "second-reader-constructed-up-front:%s"), case, config["fields"])
+    if table and any(event[0] == "rej" for event in prediction["events"]):
+        # one Reader iterated a second time over the rewound source: the second pass is a read of the same data, judged like the first
+        # (row numbers start again at 1)
+        again_cid = readermachine.make_cid(config, decls)
+        again_source, _ = readermachine.store(config, decls, table)
+        again = harness.modules()["validio"].Reader(again_cid, again_source, on_error="yield")
+        readermachine.run_reader(again_cid, None, reader=again, close=False)
+        if not isinstance(again_source, str):
+            again_source.seek(0)
+        second_pass = readermachine.run_reader(again_cid, None, reader=again)
+        part.transitions += 2
+        readermachine.compare_yield(prediction, second_pass, basename, part, tag.replace("%s", "second-pass-over-one-reader:%s"), case, config["fields"])
     # product state: the implementation's snapshot together with the model's state, so that an
     # implementation that "forgets" something cannot make distinct model states merge
     model_run = prediction["run"]
